@@ -18,6 +18,7 @@ type borderVec struct {
 	P      [2]int `json:"p"`
 	K      int    `json:"k"`
 	Ig     bool   `json:"ig"`
+	Shape  string `json:"shape"` // tri | shell | hole: where the (possibly outside) vertex sits
 	Expect string `json:"expect"`
 	Inside bool   `json:"inside"`
 }
@@ -135,6 +136,20 @@ func borderReplay(args []string) int {
 				continue
 			}
 			total++
+			// second ring: a small in-grid triangle near the middle; as hole after the offending shell, or as shell before the offending hole
+			small := make([][2]float64, 3)
+			for i, q := range [3][2]int{{half, half}, {half + 1, half}, {half, half + 1}} {
+				fx, _ := floatFor(conv(q[0], g.MinX))
+				fy, _ := floatFor(conv(q[1], g.MinY))
+				small[i] = [2]float64{fx, fy}
+			}
+			polygon := geom.Polygon{ring}
+			switch v.Shape {
+			case "shell":
+				polygon = geom.Polygon{ring, small}
+			case "hole":
+				polygon = geom.Polygon{small, ring}
+			}
 			// (1) SnapPolygon with keep-points-and-lines on, so an accepted polygon always returns something
 			outcome := func() (oc string) {
 				defer func() {
@@ -142,7 +157,7 @@ func borderReplay(args []string) int {
 						oc = classifyPanic(r)
 					}
 				}()
-				res := snap.SnapPolygon(geom.Polygon{ring}, g.tms, []tms20.TMID{g.Z}, snap.Config{KeepPointsAndLines: true, IgnoreOutsideGrid: v.Ig})
+				res := snap.SnapPolygon(polygon, g.tms, []tms20.TMID{g.Z}, snap.Config{KeepPointsAndLines: true, IgnoreOutsideGrid: v.Ig})
 				if len(res) == 0 {
 					return "empty"
 				}
@@ -184,7 +199,7 @@ func borderReplay(args []string) int {
 			if !okOutcome || !okIns {
 				bad++
 				if bad <= 2000 {
-					out.put(map[string]any{"mismatch": true, "vec": v, "grid": g.Name, "z": g.Z, "ring": ring, "snap_outcome": outcome, "insert_outcome": ins, "want_insert": wantIns})
+					out.put(map[string]any{"mismatch": true, "vec": v, "grid": g.Name, "z": g.Z, "ring": ring, "polygon": polygon, "snap_outcome": outcome, "insert_outcome": ins, "want_insert": wantIns})
 				}
 			}
 		}
